@@ -12,8 +12,8 @@ from .common import *
 WHERE = ("interpreter", "src/stdlib/convert/scalar.rs")
 WHERE_MM = ("interpreter", "src/stdlib/convert/mat_to_mat.rs")
 NUM = ["u8", "u16", "u32", "u64", "u128", "i8", "i16", "i32", "i64", "i128", "f32", "f64"]
-SLICE = ",".join(["bool", "string", "matrixd", "vectord", "row_vectord", "functions", "compiler", "convert", "access", "subscript_range",
-                  "subscript_slice", "logical_indexing", "subscript_formula", "tuple", "variable_define", "kind_annotation"] + NUM)
+from .c03 import SLICE_BASE as _SB
+SLICE = ",".join(dict.fromkeys(_SB + NUM))
 MANT = {"f32": 24, "f64": 53}
 
 
